@@ -207,15 +207,16 @@ Fixpoint owned_ok (o : owned) : bool :=
   | _ => true
   end.
 
-(* nesting depth: a scalar or string is 0, a table is one more than its deepest key or value *)
+(* nesting depth: a scalar, a string and an empty table are 0, a table with entries is one more than its deepest
+   key or value.  try_from needs [odepth o + 1] units of fuel to answer [o]. *)
 Fixpoint odepth (o : owned) : nat :=
   match o with
   | OTable l =>
-      S ((fix mx (l : list (owned * owned)) : nat :=
-            match l with
-            | [] => 0
-            | (k, v) :: r => Nat.max (Nat.max (odepth k) (odepth v)) (mx r)
-            end) l)
+      (fix mx (l : list (owned * owned)) : nat :=
+         match l with
+         | [] => 0
+         | (k, v) :: r => Nat.max (S (Nat.max (odepth k) (odepth v))) (mx r)
+         end) l
   | _ => 0
   end.
 
